@@ -15,6 +15,7 @@ Inductive js :=
 Inductive ty :=
 | TInt | TFloat | TBool | TStr | TNone | TAny
 | TList (t: ty) | TSet (t: ty)
+| TWrap (t: ty)                 (* unwrap-and-redispatch wrappers: Final[t], NewType(.., t), Required/NotRequired/ReadOnly[t] *)
 | TDict (v: ty)                 (* Dict[str, v] *)
 | TTuple (ts: list ty)          (* Tuple[t1, .., tn]; [] is Tuple[()] *)
 | TUnion (ts: list ty)          (* Union[...] / Optional[...] as flattened by typing *)
@@ -125,7 +126,8 @@ Fixpoint str_mem (s: string) (l: list string) : bool :=
 Fixpoint str_nodup (l: list string) : bool :=
   match l with [] => true | x :: r => negb (str_mem x r) && str_nodup r end.
 
-Definition is_any (t: ty) : bool := match t with TAny => true | _ => false end.
+(* _get_schema_or_none looks at the class of the RESULT (EmptyJSONSchema), which a wrapper passes through *)
+Fixpoint is_any (t: ty) : bool := match t with TAny => true | TWrap a => is_any a | _ => false end.
 Definition or_none (t: ty) (s: sk) : option js := if is_any t then None else Some (render s).
 
 (* ---- results: value, fuel exhausted (= RecursionError of the implementation), error ---- *)
@@ -184,6 +186,7 @@ Section Gen.
       | TStr => fun st => SOk (ty_sk "string", st)
       | TNone => fun st => SOk (ty_sk "null", st)
       | TAny => fun st => SOk (sk0, st)
+      | TWrap a => fun st => on_ty a st
       | TList a => fun st =>
           match on_ty a st with
           | SOk (s, st1) => SOk (arr_sk (or_none a s) None, st1)
@@ -258,7 +261,7 @@ End Gen.
 (* ---- classes mentioned by a type ---- *)
 Fixpoint classes_of (t: ty) : list string :=
   match t with
-  | TList a | TSet a | TDict a => classes_of a
+  | TList a | TSet a | TDict a | TWrap a => classes_of a
   | TTuple ts | TUnion ts | TNamed _ _ ts _ => (fix go (l: list ty) := match l with [] => [] | x :: r => (classes_of x ++ go r)%list end) ts
   | TClass c => [c]
   | _ => []
@@ -267,7 +270,7 @@ Fixpoint classes_of (t: ty) : list string :=
 (* no empty Union (typing cannot build one) *)
 Fixpoint ty_ok (t: ty) : bool :=
   match t with
-  | TList a | TSet a | TDict a => ty_ok a
+  | TList a | TSet a | TDict a | TWrap a => ty_ok a
   | TTuple ts => (fix go (l: list ty) := match l with [] => true | x :: r => ty_ok x && go r end) ts
   | TUnion ts => match ts with [] => false | _ => (fix go (l: list ty) := match l with [] => true | x :: r => ty_ok x && go r end) ts end
   | TNamed _ names ts _ =>
